@@ -13,6 +13,14 @@ Statements:   ("decl", x, [dim..], init|None)            var x[..] = init;
               ("ceq", a, b) ("assert", e) ("log", e) ("return", e)
               ("if", c, [s..], [s..]|None) ("while", c, [s..]) ("for", init, c, step, [s..])
               ("block", [s..])
+Third audit:  ("port", c, p)  c.p        ("anon", T, [args], [inputs])  T(args)(inputs)      (expressions)
+              ("compdecl", c, T, [args])               component c = T(args);
+              ("portassign", c, p, "<=="|"<--", e)     c.p <== e;
+              ("tupledecl", [x..], [e..])              var (x, y) = (e1, e2);
+              `return` nested in loops / branches, assignments to parameters, signals and compound
+              expressions as indices, loops whose trip count depends on a local or a signal.
+A program that uses components or tuples has prog["helpers"] = True: its source is the definition followed
+by the helper templates (HELPERS), and the harness runs the real desugarer on it.
 Every statement is a list whose last element is a dict (filled by render with
 "span": (start, end) of the statement text without the `;`, and "id")."""
 
@@ -20,6 +28,11 @@ P = 2188824287183927522224640574525727508854836440041603434369820418657580849561
 
 BINOPS = ["+", "-", "*", "+", "*", "==", "!=", "<", "<=", ">", ">=", "&&", "||", ">>", "&"]
 ARITH = ["+", "-", "*"]
+
+
+HELPERS = """template Sub(k) { signal input a0; signal output b; b <== a0 * k; }
+template Sub2(k) { signal input a0; signal input a1; signal output b; b <== a0 * a1 + k; }
+"""
 
 
 def S(*a):
@@ -56,6 +69,7 @@ class Gen:
         self.sig_out = []
         self.sig_mid = []
         self.protected = set()      # loop counters
+        self.comps = []             # declared components: (name, number of input ports)
         self.n = 0
         self.features = set()
 
@@ -79,7 +93,10 @@ class Gen:
         return [n for n, k in self.visible().items() if k == "s"]
 
     def arrays(self):
-        return [(n, k[1]) for n, k in self.visible().items() if k != "s"]
+        return [(n, k[1]) for n, k in self.visible().items() if k != "s" and k[0] == "a"]
+
+    def components(self):
+        return [n for n, k in self.visible().items() if k != "s" and k[0] == "c"]
 
     # ---- expressions ----
     def lit(self):
@@ -97,6 +114,9 @@ class Gen:
         sc = self.scalars()
         if prefer and r.random() < 0.6:
             return ("var", r.choice(prefer))
+        if c < 0.12 and self.components():
+            self.features.add("port-read")
+            return ("port", r.choice(self.components()), "b")
         if sc and c < 0.45:
             return ("var", r.choice(sc))
         if self.params and c < 0.55:
@@ -138,6 +158,22 @@ class Gen:
 
     def index(self, ln):
         r = self.r
+        if r.random() < 0.12:
+            sigs = [n for n, l in self.sig_in + self.sig_mid if l is None] if self.template else []
+            sc = self.scalars() + self.params
+            if sigs and r.random() < 0.6:
+                self.features.add("signal-index")
+                return ("var", r.choice(sigs))
+            if sc:
+                self.features.add("compound-index")
+                a = ("var", r.choice(sc))
+                k = r.random()
+                if k < 0.4:
+                    return ("bin", "+", a, ("num", r.randrange(2)))
+                if k < 0.7 and sigs:
+                    self.features.add("signal-index")
+                    return ("bin", r.choice(["+", "*", "&"]), a, ("var", r.choice(sigs)))
+                return ("bin", r.choice(["*", "&", "-"]), a, ("var", r.choice(sc)))
         if r.random() < 0.6:
             return ("num", r.randrange(ln))
         sc = self.scalars() + self.params
@@ -225,10 +261,152 @@ class Gen:
         el = self.body(depth - 1, r.randrange(1, 3), in_loop) if r.random() < 0.7 else None
         return pre + [S("if", cond, th, el)]
 
+    def extra(self, depth, in_loop):
+        """Shapes added after the third audit (each counted as a feature): sub-components and their ports,
+        anonymous components, tuples, a signal / compound expression as index, trip counts that depend on a
+        local or a signal, `return` nested in loops / branches, assignments to parameters."""
+        r = self.r
+        kinds = ["param-assign", "sig-index", "data-loop", "data-loop"]
+        if self.template:       # tuples and anonymous components are rejected in functions
+            kinds += ["component", "component", "anon", "anon", "sig-index", "ctl-partner", "tuple", "tuple"]
+        else:
+            kinds += ["nested-return", "nested-return", "nested-return"]
+        k = r.choice(kinds)
+        sc = [x for x in self.scalars() if x not in self.protected]
+        if k == "component":
+            self.n += 1
+            c = "c%d" % self.n
+            two = r.random() < 0.4
+            out = [S("compdecl", c, "Sub2" if two else "Sub", [self.atom(sig_ok=False)])]
+            for port in (["a0", "a1"] if two else ["a0"]):
+                out.append(S("portassign", c, port, r.choice(["<==", "<==", "<--"]), self.expr(1, arith=True)))
+            self.declare(c, ("c", 2 if two else 1))
+            self.features.add("component")
+            self.features.add("port-assign")
+            if r.random() < 0.6 and self.sig_out + self.sig_mid:
+                n, ln = r.choice(self.sig_out + self.sig_mid)
+                e = ("port", c, "b")
+                if r.random() < 0.5:
+                    e = ("bin", "+", e, self.atom())
+                self.features.add("port-read")
+                out.append(S("sigassign", n, self.indices(ln), r.choice(["<==", "<--"]), e))
+            return out
+        if k == "anon":
+            if not (self.sig_out + self.sig_mid):
+                return None
+            n, ln = r.choice(self.sig_out + self.sig_mid)
+            two = r.random() < 0.4
+            e = ("anon", "Sub2" if two else "Sub", [self.atom(sig_ok=False)],
+                 [self.expr(1, arith=True) for _ in range(2 if two else 1)])
+            self.features.add("anonymous-component")       # (only as the whole right-hand side: the desugarer rejects others)
+            return [S("sigassign", n, self.indices(ln), "<==", e)]
+        if k == "tuple":
+            self.n += 1
+            a, b = "u%d" % self.n, "w%d" % self.n
+            es = [self.expr(1), self.expr(1)]
+            self.declare(a, "s")
+            self.declare(b, "s")
+            self.features.add("tuple")
+            return [S("tupledecl", [a, b], es)]
+        if k == "param-assign":
+            if not self.params:
+                return None
+            p = r.choice(self.params)
+            self.features.add("param-assign")
+            if r.random() < 0.5:
+                return [S("assign", p, [], "=", self.expr(2))]
+            return [S("assign", p, [], r.choice(["+=", "*=", "-="]), self.expr(1))]
+        if k == "sig-index":
+            # `var tab[2] = [3, 5]; var y = tab[in];` / `tab[s]` / `tab[(x + 1)]`
+            self.n += 1
+            t, y = "tab%d" % self.n, "y%d" % self.n
+            sigs = [n for n, l in self.sig_in + self.sig_mid if l is None] if self.template else []
+            cands = [("var", x) for x in sigs] * 2 + [("bin", "+", ("var", x), ("num", 1)) for x in sc + self.params]
+            if not cands:
+                return None
+            ix = r.choice(cands)
+            self.features.add("signal-index" if ix[0] == "var" and ix[1] in sigs else "compound-index")
+            out = [S("decl", t, [("num", 2)], ("arr", [self.expr(1), self.expr(1)])), S("decl", y, [], ("idx", t, [ix]))]
+            self.declare(t, ("a", 2))
+            self.declare(y, "s")
+            return out
+        if k == "data-loop" and depth > 0:
+            # the trip count depends on a local or a signal (masked so that runs stay short)
+            self.n += 1
+            w = "w%d" % self.n
+            sigs = [n for n, l in self.sig_in + self.sig_mid if l is None] if self.template else []
+            cands = [("var", x) for x in sc] + [("var", x) for x in sigs] * 2
+            if not cands:
+                return None
+            b = r.choice(cands)
+            self.features.add("data-trip-count-signal" if b[1] in sigs else "data-trip-count-local")
+            bound = b if r.random() < 0.3 else ("bin", "&", b, ("num", 3))
+            self.declare(w, "s")
+            self.protected.add(w)
+            body = self.body(depth - 1, r.randrange(1, 3), True)
+            body.append(S("assign", w, [], "=", ("bin", "+", ("var", w), ("num", 1))))
+            return [S("decl", w, [], ("num", 0)), S("while", ("bin", "<", ("var", w), bound), body)]
+        if k == "nested-return" and depth > 0:
+            # `return` inside a loop, inside a branch of a loop, inside an else
+            self.features.add("nested-return")
+            ret = S("return", self.expr(1))
+            shape = r.randrange(4)
+            if shape == 0:
+                inner = [S("if", self.cond(1), self.body(depth - 1, r.randrange(0, 2), in_loop) + [ret], None)]
+            elif shape == 1:
+                inner = [S("if", self.cond(1), self.body(depth - 1, 1, in_loop), self.body(depth - 1, r.randrange(0, 2), in_loop) + [ret])]
+            else:
+                inner = [S("if", self.cond(1), [S("if", self.cond(0), [ret], None)], None)]
+            if shape == 3 or r.random() < 0.6:
+                self.n += 1
+                i = "i%d" % self.n
+                self.scopes.append([(i, "s")])
+                self.protected.add(i)
+                pre = self.body(depth - 1, r.randrange(0, 2), True)
+                self.scopes.pop()
+                bound = ("var", r.choice(self.params)) if (self.params and r.random() < 0.5) else ("num", r.randrange(1, 4))
+                return [S("for", S("decl", i, [], ("num", 0)), ("bin", "<", ("var", i), bound), S("incr", i, "++"), pre + inner)]
+            return inner
+        if k == "ctl-partner" and depth > 0 and (self.sig_in and sc):
+            # a local assigned under a branch on an input signal, then a constraint between it and another local:
+            # the constraint mentions the input only through CONTROL dependence (branch regions)
+            sigs = [n for n, l in self.sig_in if l is None]
+            if not sigs:
+                return None
+            self.n += 1
+            y, z = "cy%d" % self.n, "cz%d" % self.n
+            self.features.add("ctl-partner")
+            cnd = ("bin", r.choice(["==", "<", "!="]), ("var", r.choice(sigs)), self.lit())
+            th = [S("assign", y, [], "=", self.lit())]
+            shape = r.randrange(4)
+            if shape == 1:      # the assignment sits in a loop inside the branch (branch starts at a loop)
+                self.n += 1
+                i = "i%d" % self.n
+                th = [S("for", S("decl", i, [], ("num", 0)), ("bin", "<", ("var", i), ("num", 2)), S("incr", i, "++"), th)]
+            elif shape == 2:    # nested branch
+                th = [S("if", self.cond(0, sig_ok=False), th, [S("assign", y, [], "+=", ("num", 1))])]
+            el = [S("assign", y, [], "=", self.lit())] if r.random() < 0.5 else None
+            br = S("if", cnd, th, el)
+            if shape == 3:      # the branch itself sits in a loop
+                self.n += 1
+                i = "i%d" % self.n
+                br = S("for", S("decl", i, [], ("num", 0)), ("bin", "<", ("var", i), ("num", 2)), S("incr", i, "++"), [br])
+            out = [S("decl", y, [], ("num", 0)), S("decl", z, [], self.expr(1, sig_ok=False)), br]
+            if self.sig_mid and r.random() < 0.5:
+                out.append(S("ceq", ("var", self.sig_mid[0][0]), ("bin", "*", ("var", y), ("var", z))))
+            else:
+                out.append(S("ceq", ("var", y), ("var", z)))
+            return out
+        return None
+
     def stmt(self, depth, in_loop):
         r = self.r
         if depth > 0 and r.random() < 0.05:
             return self.const_cond(depth, in_loop)
+        if r.random() < 0.14:
+            ex = self.extra(depth, in_loop)
+            if ex:
+                return ex
         c = r.random()
         sc = [x for x in self.scalars() if x not in self.protected]
         if c < 0.22 or not sc:
@@ -406,6 +584,10 @@ def rexpr(e):
         return "%s(%s)" % (e[1], ", ".join(rexpr(a) for a in e[2]))
     if t == "arr":
         return "[%s]" % ", ".join(rexpr(a) for a in e[1])
+    if t == "port":
+        return "%s.%s" % (e[1], e[2])
+    if t == "anon":
+        return "%s(%s)(%s)" % (e[1], ", ".join(rexpr(a) for a in e[2]), ", ".join(rexpr(a) for a in e[3]))
     raise ValueError(t)
 
 
@@ -447,6 +629,12 @@ class Renderer:
             return st[1] + st[2]
         if t == "sigassign":
             return "%s%s %s %s" % (st[1], "".join("[%s]" % rexpr(i) for i in st[2]), st[3], rexpr(st[4]))
+        if t == "compdecl":
+            return "component %s = %s(%s)" % (st[1], st[2], ", ".join(rexpr(a) for a in st[3]))
+        if t == "portassign":
+            return "%s.%s %s %s" % (st[1], st[2], st[3], rexpr(st[4]))
+        if t == "tupledecl":
+            return "var (%s) = (%s)" % (", ".join(st[1]), ", ".join(rexpr(e) for e in st[2]))
         if t == "ceq":
             return "%s === %s" % (rexpr(st[1]), rexpr(st[2]))
         if t == "assert":
@@ -502,7 +690,25 @@ def render(prog):
     r.w("%s %s(%s) {\n" % (prog["kind"], prog["name"], ", ".join(prog["params"])))
     r.stmts(prog["body"], "  ")
     r.w("}\n")
+    if prog.get("helpers") or uses_helpers(prog["body"]):
+        prog["helpers"] = True
+        r.w(HELPERS)
     return "".join(r.buf)
+
+
+def uses_helpers(x):
+    if isinstance(x, (list, tuple)):
+        if x and x[0] in ("compdecl", "portassign", "tupledecl", "anon", "port"):
+            return True
+        return any(uses_helpers(y) for y in x)
+    return False
+
+
+def wire_line(prog):
+    """The line handed to the harness: hex of the source, prefixed with `file:` when the source is a whole
+    file (definition + helper templates) that has to go through the real desugarer."""
+    h = prog["source"].encode().hex()
+    return ("file:" + h) if prog.get("helpers") else h
 
 
 def generate(rng, **kw):
